@@ -120,6 +120,91 @@ def test_variants(depth, k=0):
     return out
 
 
+def nested_tests():
+    """token lists of tests with nesting depth up to 3: not / allof / anyof combinations, nested test lists"""
+    leaf = [[b"true"], [b"false"], [b"exists", b'"x"'], [b"header", b":is", b'"a"', b'"b"'], [b"size", b":over", b"1K"]]
+    out = []
+    for i, l in enumerate(leaf):
+        l2 = leaf[(i + 1) % len(leaf)]
+        out.append([b"not"] + l)
+        out.append([b"not", b"not"] + l)
+        out.append([b"not", b"not", b"not"] + l)
+        out.append([b"anyof", b"("] + l + [b","] + l2 + [b")"])
+        out.append([b"not", b"anyof", b"("] + l + [b")"])
+        out.append([b"not", b"not", b"anyof", b"("] + l + [b","] + l2 + [b")"])
+        out.append([b"allof", b"(", b"anyof", b"("] + l + [b")", b","] + l2 + [b")"])
+        out.append([b"allof", b"(", b"anyof", b"("] + l + [b","] + l2 + [b")", b",", b"not"] + l + [b")"])
+        out.append([b"anyof", b"(", b"not", b"not", b"allof", b"("] + l + [b")", b",", b"allof", b"("] + l2 + [b",", b"not"] + l + [b")", b")"])
+        out.append([b"allof", b"(", b"allof", b"(", b"allof", b"("] + l + [b")", b")", b","] + l2 + [b")"])
+    return out
+
+
+def nested_scripts():
+    """valid scripts exercising the push-down layer: nested blocks, elsif/else chains at several depths, commands after
+    closed blocks, nested test lists"""
+    head = require_all()
+    tests = nested_tests()
+    out = []
+    a = [[b"keep", b";"], [b"stop", b";"], [b"discard", b";"], [b"redirect", b'"x"', b";"]]
+    for i, t in enumerate(tests):
+        t2 = tests[(i + 3) % len(tests)]
+        a1, a2, a3 = a[i % 4], a[(i + 1) % 4], a[(i + 2) % 4]
+        out.append(head + [b"if"] + t + [b"{"] + a1 + [b"}"])
+        out.append(head + [b"if"] + t + [b"{"] + a1 + [b"}", b"elsif"] + t2 + [b"{"] + a2 + [b"}", b"else", b"{"] + a3 + [b"}"] + a1)
+        out.append(head + [b"if"] + t + [b"{", b"if"] + t2 + [b"{"] + a1 + [b"}", b"else", b"{"] + a2 + [b"}"] + a3 + [b"}"] + a2)
+        out.append(head + [b"if"] + t + [b"{", b"if"] + t2 + [b"{", b"if", b"true", b"{"] + a1 + [b"}", b"elsif", b"false", b"{"] + a2
+                   + [b"}"] + a3 + [b"}", b"elsif"] + t + [b"{"] + a1 + [b"}"] + a2 + [b"}"] + a3 + [b"if"] + t2 + [b"{"] + a1 + [b"}"])
+    return out
+
+
+CONSTRUCTS = [[b"else", b"{", b"stop", b";", b"}"], [b"elsif", b"true", b"{", b"stop", b";", b"}"], [b"if", b"true", b"{", b"}"],
+              [b"/* c */"], [b"# c\n"], [b"not"], [b"(", b"true", b")"], [b"anyof", b"(", b"true", b")"]]
+
+
+def construct_edits(tokens, rng, n):
+    """edits that insert or remove a whole construct (an else/elsif branch, a block, a comment, a `not`, a test list)"""
+    out = []
+    h = len(require_all())
+    if len(tokens) <= h:
+        return out
+    for _ in range(n):
+        kind = rng.choice(["insert-construct", "insert-construct", "unblock", "drop-group", "dup-token"])
+        t = list(tokens)
+        if kind == "insert-construct":
+            i = rng.randrange(h, len(t) + 1)
+            t[i:i] = rng.choice(CONSTRUCTS)
+        elif kind == "unblock":
+            opens = [i for i in range(h, len(t)) if t[i] == b"{"]
+            if not opens:
+                continue
+            i = rng.choice(opens)
+            d, j = 0, i
+            while j < len(t):
+                d += (t[j] == b"{") - (t[j] == b"}")
+                if d == 0:
+                    break
+                j += 1
+            t[i:j + 1] = [b";"]
+        elif kind == "drop-group":
+            opens = [i for i in range(h, len(t)) if t[i] in (b"(", b"[")]
+            if not opens:
+                continue
+            i = rng.choice(opens)
+            close = b")" if t[i] == b"(" else b"]"
+            d, j = 0, i
+            while j < len(t):
+                d += (t[j] == t[i]) - (t[j] == close)
+                if d == 0:
+                    break
+                j += 1
+            del t[i:j + 1]
+        else:
+            i = rng.randrange(h, len(t))
+            t.insert(i, t[i])
+        out.append((kind, 0, t))
+    return out
+
+
 def action_variants():
     out = []
     for name, spec in frozen.COMMANDS.items():
